@@ -688,7 +688,156 @@ def r25(ctx, R):
     R.count('R2.5', n, 8)
 
 
+def r26(ctx, R, rule='R2.6', premature=False):
+    """The per-class accumulation of trees: RPCandidateList
+    .merge_common_trees treats an empty receiver as "nothing merged yet"
+    (it adopts the other list) and an empty argument as "nothing to merge".
+    A loop that intersects one class after the other through it therefore
+    has to stop as soon as either side is empty - otherwise the running
+    intersection starts again from the next class and candidates that lack
+    the earlier classes come back."""
+    prog = ctx.prog
+    MERGE = 'placement.objects.rp_candidates:RPCandidateList.' \
+        'merge_common_trees'
+    callee = prog.func(MERGE)
+    me = callee.params[0]
+    other = callee.params[1] if len(callee.params) > 1 else None
+    adopts = ignores = False
+    for n in own_nodes(callee.node):
+        if isinstance(n, ast.If):
+            for a, pol in C.lits(n.test, True, []):
+                # (either polarity: "elif not other: pass / else: X" is
+                # also written "if other: X")
+                if isinstance(a, ast.Name):
+                    if a.id == me:
+                        adopts = True
+                    if a.id == other:
+                        ignores = True
+    n_sites = 0
+    for f in prog.funcs:
+        for c in C.calls_to(ctx, f, MERGE):
+            st = C.stmt_of(c)
+            lp = getattr(st, '_parent', None)
+            if not isinstance(lp, (ast.For, ast.While)) or not (
+                    isinstance(c.func, ast.Attribute) and isinstance(
+                        c.func.value, ast.Name) and c.args and isinstance(
+                            c.args[0], ast.Name)):
+                continue
+            n_sites += 1
+            acc, arg = c.func.value.id, c.args[0].id
+            g = cfgmod.cfg_of(f)
+
+            def empty_exit(x, name):
+                if not (isinstance(x, ast.If) and x.body and isinstance(
+                        x.body[-1], ast.Return)):
+                    return False
+                ls = C.lits(x.test, True, [])
+                return len(ls) == 1 and not ls[0][1] and isinstance(
+                    ls[0][0], ast.Name) and ls[0][0].id == name
+
+            def grows_only(call):
+                """Every callee only adds to the list it is called on."""
+                s_ = ctx.cg.site_of.get(call)
+                if s_ is None or not s_.callees:
+                    return False
+                for cal in s_.callees:
+                    sts = [y for y in own_nodes(cal.node) if isinstance(
+                        y, (ast.Assign, ast.AugAssign)) and any(
+                            isinstance(t, ast.Attribute) and isinstance(
+                                t.value, ast.Name) and t.value.id ==
+                            (cal.params + [None])[0]
+                            for t in (y.targets if isinstance(
+                                y, ast.Assign) else [y.target]))]
+                    if not sts or not all(isinstance(
+                            y, ast.AugAssign) and isinstance(
+                                y.op, ast.BitOr) for y in sts):
+                        return False
+                return True
+
+            def writes(x, name):
+                """The statement may leave the named list empty (it binds
+                it, or calls something on it that does not only add)."""
+                for y in cfgmod.header_nodes(x):
+                    if isinstance(y, ast.Name) and y.id == name and \
+                            isinstance(y.ctx, ast.Store):
+                        return True
+                    if isinstance(y, ast.Call) and isinstance(
+                            y.func, ast.Attribute) and isinstance(
+                                y.func.value, ast.Name) and \
+                            y.func.value.id == name and not grows_only(y):
+                        return True
+                return False
+            inloop = [x for x in own_nodes_of(lp) if isinstance(x, ast.stmt)]
+            if premature:
+                # R3.11: a class's list is given up as empty only when
+                # nothing can be added to it any more - an empty-exit that
+                # follows a filtering step must not be followed, in the same
+                # iteration, by a step that adds providers (they would have
+                # made the list non-empty: candidates are omitted)
+                def calls_on(x, name, growing):
+                    for y in cfgmod.header_nodes(x):
+                        if isinstance(y, ast.Call) and isinstance(
+                                y.func, ast.Attribute) and isinstance(
+                                    y.func.value, ast.Name) and \
+                                y.func.value.id == name and \
+                                grows_only(y) == growing:
+                            return True
+                    return False
+
+                def within(a, b):
+                    """b is reachable from a without passing the loop
+                    head."""
+                    return b in g.reachable_from(
+                        list(g.succ.get(a, ())), removed={lp})
+                shr = [x for x in inloop if calls_on(x, arg, False)
+                       and x is not st]
+                grw = [x for x in inloop if calls_on(x, arg, True)]
+                guards = [x for x in inloop if empty_exit(x, arg)]
+                bad = []
+                for G in guards:
+                    if any(within(s_, G) for s_ in shr):
+                        bad.extend(w for w in grw if within(G, w))
+                R.ob(rule, '%s:no-exit-before-last-addition' % f.qbase,
+                     bool(guards) and bool(grw) and not bad,
+                     'a class\'s provider list is given up as empty (after '
+                     'a filter) only when no step of the iteration can still '
+                     'add providers to it', ['line %d adds after an '
+                                             'empty-exit' % w.lineno
+                                             for w in bad] or
+                     '%d filters, %d additions, %d empty-exits' % (
+                         len(shr), len(grw), len(guards)), func=f, node=st)
+                continue
+            if adopts:
+                guards = {x for x in inloop if empty_exit(x, acc)}
+                ok = bool(guards) and g.must_pass(st, lp, guards,
+                                                  normal_only=True)
+                R.ob(rule, '%s:accumulator-empty-exits' % f.qbase, ok,
+                     'after each merge an empty running intersection ends '
+                     'the search before the next class is merged (an empty '
+                     'receiver would adopt the next class\'s providers)',
+                     '%d empty-exits on the accumulator' % len(guards),
+                     func=f, node=st)
+            if ignores:
+                guards = {x for x in inloop if empty_exit(x, arg)}
+                ws = [x for x in inloop if x is not st and writes(x, arg)]
+                # only writes of this iteration count: a path from a write
+                # to the merge that goes round the loop passes the loop head
+                bad = [x for x in ws if st in g.reachable_from([x])
+                       and not g.must_pass(x, st, guards | {lp},
+                                           normal_only=True)]
+                R.ob(rule, '%s:merged-list-empty-exits' % f.qbase,
+                     bool(guards) and bool(ws) and not bad,
+                     'a class for which no provider is left ends the search '
+                     'before the merge (an empty argument is ignored by the '
+                     'merge): tested after every change of the list',
+                     ['line %d' % x.lineno for x in bad] or
+                     '%d writes, %d empty-exits' % (len(ws), len(guards)),
+                     func=f, node=st)
+    R.count(rule, n_sites, 1)
+
+
 def run(ctx, R):
+    r26(ctx, R)
     r21(ctx, R)
     r21b(ctx, R)
     c01.r13(ctx, R)
